@@ -57,6 +57,25 @@ _CMP = {ast.In: lambda a, b: a in b, ast.NotIn: lambda a, b: a not in b, ast.Eq:
 _FUN = {"min": min, "max": max, "round": round, "int": int, "float": float, "abs": abs, "len": len, "bool": bool}
 
 
+class _Cursor:
+    """iterator over a constant sequence (optionally cycling): the state of `iter(seq)` / `itertools.cycle(seq)`"""
+
+    def __init__(self, items, cycle):
+        self.items, self.cycle, self.pos = items, cycle, 0
+
+    def next(self):
+        if self.pos >= len(self.items):
+            if not self.cycle:
+                raise StopIteration
+            self.pos = 0
+        v = self.items[self.pos]
+        self.pos += 1
+        return v
+
+    def state(self):
+        return ("cursor", self.pos % len(self.items) if self.cycle and self.items else self.pos)
+
+
 class FakeObj:
     """A stand-in value with named attributes (and a class name for isinstance tests)."""
 
@@ -66,6 +85,23 @@ class FakeObj:
 
     def __repr__(self):
         return f"<{self._cls} {', '.join(f'{k}={v!r}' for k, v in self.__dict__.items() if k != '_cls')}>"
+
+
+def freeze(v, depth=0):
+    """hashable snapshot of an evaluator value (for state exploration)"""
+    if isinstance(v, _PLAIN):
+        return v
+    if depth > 4:
+        return "<deep>"
+    if isinstance(v, _Cursor):
+        return v.state()
+    if isinstance(v, FakeObj):
+        return (v._cls,) + tuple(sorted((k, freeze(x, depth + 1)) for k, x in v.__dict__.items() if k not in ("_cls", "_ci")))
+    if isinstance(v, (list, tuple)):
+        return tuple(freeze(x, depth + 1) for x in v)
+    if isinstance(v, dict):
+        return tuple(sorted((repr(k), freeze(x, depth + 1)) for k, x in v.items()))
+    return repr(v)
 
 
 class Mini:
@@ -81,6 +117,12 @@ class Mini:
     # -- expressions
     def ev(self, e: ast.expr, env: dict) -> Any:
         t = norm_text(e)
+        if isinstance(e, ast.Attribute) and isinstance(e.value, ast.Name) and e.value.id == "self" and isinstance(env.get("self"), FakeObj):
+            # a method of a helper object is being evaluated: `self` is that object
+            obj = env["self"]
+            if e.attr in obj.__dict__:
+                return obj.__dict__[e.attr]
+            raise Unsupported(f"{t}: the helper object has no attribute {e.attr}")
         if t in self.atoms:
             return self.atoms[t]
         if isinstance(e, ast.Attribute) and t in self.selfattrs:
@@ -240,6 +282,35 @@ class Mini:
                         return getattr(obj, e.func.attr)(*args)
                     except IndexError as ex:
                         raise _PyRaise("IndexError")
+            if d in ("iter",) and len(e.args) == 1 and not e.keywords:
+                v = self.ev(e.args[0], env)
+                if isinstance(v, FakeObj) and getattr(v, "_ci", None) is not None and "__iter__" in v._ci.methods:
+                    return self.call(v._ci.methods["__iter__"], [], {}, 1, self_obj=v)
+                if isinstance(v, (list, tuple, range)):
+                    return _Cursor(list(v), False)
+                raise Unsupported("iter() of a value that is not a constant sequence")
+            if (self.repo.qual(self.module, e.func) or "") == "itertools.cycle" and len(e.args) == 1 and not e.keywords:
+                v = self.ev(e.args[0], env)
+                if isinstance(v, (list, tuple, range)) and len(v) > 0:
+                    return _Cursor(list(v), True)
+                raise Unsupported("itertools.cycle() of a value that is not a constant sequence")
+            if d == "next" and 1 <= len(e.args) <= 2 and not e.keywords:
+                v = self.ev(e.args[0], env)
+                if isinstance(v, _Cursor):
+                    try:
+                        return v.next()
+                    except StopIteration:
+                        if len(e.args) == 2:
+                            return self.ev(e.args[1], env)
+                        raise _PyRaise("StopIteration")
+                if isinstance(v, FakeObj) and getattr(v, "_ci", None) is not None and "__next__" in v._ci.methods:
+                    return self.call(v._ci.methods["__next__"], [], {}, 1, self_obj=v)
+                raise Unsupported("next() of a value that is not an iterator known to the evaluator")
+            if isinstance(e.func, ast.Attribute) and not (isinstance(e.func.value, ast.Name) and e.func.value.id == "self" and not isinstance(env.get("self"), FakeObj)):
+                recv = self._try_ev(e.func.value, env)
+                if isinstance(recv, FakeObj) and getattr(recv, "_ci", None) is not None and e.func.attr in recv._ci.methods:
+                    # method of a helper object
+                    return self.call(recv._ci.methods[e.func.attr], [self.ev(a, env) for a in e.args], {k.arg: self.ev(k.value, env) for k in e.keywords}, 1, self_obj=recv)
             if d.split(".")[-1] == "replace" and len(e.args) == 1 and (self.repo.qual(self.module, e.func) or "") == "dataclasses.replace":
                 obj = self.ev(e.args[0], env)
                 if isinstance(obj, FakeObj):
@@ -262,6 +333,18 @@ class Mini:
                     if k.arg:
                         fields[k.arg] = self.ev(k.value, env)
                 return FakeObj(ci.name, **fields)
+            if ci is not None and not ci.is_dataclass and not ci.is_enum() and ci.module.name == self.module.name and ci.name.startswith("_"):
+                # a private helper class of the module: an object with its own attributes, built by running __init__
+                obj = FakeObj(ci.name)
+                obj.__dict__["_ci"] = ci
+                for k, v in ci.attrs.items():
+                    try:
+                        obj.__dict__[k] = self.ev(v, {})
+                    except Unsupported:
+                        pass
+                if "__init__" in ci.methods:
+                    self.call(ci.methods["__init__"], [self.ev(a, env) for a in e.args], {k.arg: self.ev(k.value, env) for k in e.keywords}, 1, self_obj=obj)
+                return obj
             # helper of the same module / class: evaluate its body
             fn = None
             if isinstance(e.func, ast.Name) and e.func.id in self.module.functions:
@@ -278,7 +361,7 @@ class Mini:
                 return self.call(fn, [self.ev(a, env) for a in e.args], {k.arg: self.ev(k.value, env) for k in e.keywords}, skip)
         raise Unsupported(f"expression {type(e).__name__}: {t[:60]}")
 
-    def call(self, fn, args: list, kwargs: dict, skip: int):
+    def call(self, fn, args: list, kwargs: dict, skip: int, self_obj=None):
         self.depth += 1
         if self.depth > 8:
             raise Unsupported("helper recursion")
@@ -286,6 +369,8 @@ class Mini:
             params = [a.arg for a in fn.args.args][skip:]
             env = dict(zip(params, args))
             env.update(kwargs)
+            if self_obj is not None:
+                env["self"] = self_obj
             for p, d in zip(params[len(params) - len(fn.args.defaults):], fn.args.defaults):
                 if p not in env:
                     env[p] = self.ev(d, {})
@@ -339,7 +424,9 @@ class Mini:
                         raise
                     v = FakeObj("<opaque>")
                 for t in (s.targets if isinstance(s, ast.Assign) else [s.target]):
-                    if isinstance(t, ast.Attribute) and norm_text(t) in self.atoms:
+                    if isinstance(t, ast.Attribute) and isinstance(t.value, ast.Name) and t.value.id == "self" and isinstance(env.get("self"), FakeObj):
+                        env["self"].__dict__[t.attr] = v
+                    elif isinstance(t, ast.Attribute) and norm_text(t) in self.atoms:
                         self.atoms[norm_text(t)] = v  # state named as an atom is rebound
                     elif isinstance(t, ast.Attribute) and isinstance(t.value, ast.Name) and t.value.id == "self":
                         self.selfattrs[norm_text(t)] = v
